@@ -14,11 +14,19 @@ independent spec of harness/grammars.py (textbook nullable/FIRST/FOLLOW/PREDICT,
                                 (for an unambiguous grammar that is *the* derivation tree)
   same_for_both_factorizations  smart_factorization True / False: same verdict and same tree for every w,
                                 whenever G is LL(1) or both tables are conflict-free
+Declaration order: the grammar is given to LLParser as a dict {symbol: alternatives} plus start_symbol_name; the
+language, the PREDICT sets and the derivation trees are functions of the productions and the start symbol only, so
+the spec does not look at the order of the dict.  Besides the canonical order (start symbol declared first) a
+fixed share of the grammars with >= 2 nonterminals is evaluated a second time with the same productions declared
+in another order (rotations of the canonical order and of its reverse: the start symbol in every position,
+helpers before the start symbol, bottom-up declarations), all clauses unchanged.  A clause that fails only in
+the re-ordered declaration gets the key suffix ':only-in-another-declaration-order'.
 Supporting (diagnostic only): the parser's nullable / FIRST / FOLLOW of the user's symbols equal the spec.
 """
 import itertools
 import multiprocessing
 import os
+import zlib
 from collections import Counter
 
 from harness import grammars as gr
@@ -29,6 +37,7 @@ NAMES_ALT = {'N0': 'A', 'N1': 'B', 'N2': 'C'}          # start symbol sorts firs
 STEP_BUDGET = 50_000
 WALL_BUDGET = 10.0
 PEND = '$END$'
+ORDER_SUFFIX = ':only-in-another-declaration-order'
 
 
 def families(tier):
@@ -57,7 +66,12 @@ def rule_text(tier):
             parts.append(f"{n} nonterminal(s) named {[names[f'N{i}'] for i in range(n)]}, <= {ma} alternatives, RHS <= {mr}"
                          + (f", <= {mt} symbol occurrences" if mt else '') + f", terminals {t}, strings <= {L} tokens")
     return ("exhaustive: every grammar with all nonterminals reachable in the families [" + '; '.join(parts) + "], "
-            "filtered to non-left-recursive (independent left-corner closure); each constructed with "
+            "filtered to non-left-recursive (independent left-corner closure), productions dict in the canonical "
+            "declaration order (start symbol first); additionally " + order_share_text(tier) + " the same productions "
+            "declared in another order (one of the rotations of the canonical order and of its reverse, chosen by the "
+            "same CRC32: start symbol in every position, helper symbols declared before the start symbol, also start "
+            "symbols whose alternatives end in a nullable symbol so that an empty alternative must be taken at end of "
+            "input), evaluated as a case of its own with the same clauses; each constructed with "
             "smart_factorization True and False; when the grammar is LL(1) by the independent PREDICT sets or a table is "
             "reported conflict-free, every token string up to the bound is parsed (do_cleanup=False) with both parsers (one "
             "parser object per setting for all texts; shortest first, in every second grammar all non-members before "
@@ -97,6 +111,45 @@ def tail_family(part=None):
                     G = {'E': [('a', 'S'), ('b', 'T')], 'S': [s], 'T': [t], 'A': aa, 'M': mm}
                     if len(gr.reachable(G, 'E')) == 5:
                         yield G
+
+
+# ---------------------------------------------------------------------------------------------
+# declaration order of the productions dict
+# ---------------------------------------------------------------------------------------------
+
+def declaration_orders(names):
+    """the rotations of the canonical order and of its reverse, without the canonical order itself
+    (2 symbols: the swap; 3 symbols: all 5 other permutations; 5 symbols: 9 orders with the start
+    symbol - the first canonical name - in every position 0..4)"""
+    names = list(names)
+    out = []
+    for base in (names, names[::-1]):
+        for r in range(len(names)):
+            o = base[r:] + base[:r]
+            if o != names and o not in out:
+                out.append(o)
+    return out
+
+
+def order_selected(h, tier):
+    return h % 3 == 0 or (tier != 'quick' and h % 6 == 1)
+
+
+def order_share_text(tier):
+    return ("for every grammar with >= 2 nonterminals whose CRC32 (of the grammar's text) is divisible by 3"
+            + ('' if tier == 'quick' else ' or is 1 modulo 6'))
+
+
+def redeclared(G, tier):
+    """None, or the productions of G declared in another order (deterministic in G's text)"""
+    if len(G) < 2:
+        return None
+    h = zlib.crc32(gr.grammar_str(G).encode())
+    if not order_selected(h, tier):
+        return None
+    orders = declaration_orders(G)
+    o = orders[(h // 6) % len(orders)]
+    return {x: G[x] for x in o}
 
 
 # ---------------------------------------------------------------------------------------------
@@ -178,6 +231,10 @@ def evaluate(G, start, terminals, L):
         hits['conflict-free-but-not-ll1-as-written'] += 1
     if any(len(a) >= 2 and any(a[i] in N and a[i + 1] in N for i in range(len(a) - 1)) for al in G.values() for a in al):
         hits['checked:nullable-followed-by-nullable' + (':ll1' if ll1 else '')] += 1
+    # declaration order of the productions dict (the spec above never looks at it)
+    pos = list(G).index(start)
+    empty_at_end = any(x in N and gr.END in FO[x] for x in G)   # some symbol derives eps right before end of input
+    start_tail_nullable = any(a and a[-1] in N for a in G[start])
 
     # the language part
     PE = _parsing_error_class()
@@ -278,6 +335,20 @@ def evaluate(G, start, terminals, L):
             else:
                 stats['factorizations-compared'] += 1
     stats['language-checked'] += 1
+    if members and nonmembers:
+        hits[f'decl-order:start-symbol-declared-at-position-{pos}'] += 1
+        if pos:
+            hits['decl-order:start-symbol-not-declared-first' + (':ll1' if ll1 else '')] += 1
+            if pos == len(G) - 1:
+                hits['decl-order:start-symbol-declared-last'] += 1
+            else:
+                hits['decl-order:start-symbol-declared-between-helpers'] += 1
+            if empty_at_end:
+                hits['decl-order:start-symbol-not-declared-first:empty-alternative-taken-at-end-of-input'
+                     + (':ll1' if ll1 else '')] += 1
+            if start_tail_nullable:
+                hits['decl-order:start-symbol-not-declared-first:start-alternative-ends-in-nullable-symbol'
+                     + (':ll1' if ll1 else '')] += 1
     if members:
         hits['member-decided'] += 1
     if nonmembers:
@@ -287,7 +358,8 @@ def evaluate(G, start, terminals, L):
 
 
 def make_case(G, start, terminals, L, w=None):
-    c = {'grammar': gr.to_json(G), 'start': start, 'terminals': list(terminals), 'max_len': L}
+    c = {'grammar': gr.to_json(G), 'declaration_order': list(G), 'start': start, 'terminals': list(terminals),
+         'max_len': L}
     if w is not None:
         c['input'] = list(w)
     return c
@@ -308,15 +380,12 @@ def grammars_of(fam, part):
 
 
 def work(task):
-    fam, part = task
+    fam, part, tier = task
     terminals, L = fam[2], fam[7]
     cases, fails, hits, diags, stats, errors = [], {}, Counter(), [], Counter(), []
     diag_kinds = set()
-    for G, start in grammars_of(fam, part):
-        if gr.left_recursive(G):
-            stats['filtered:left-recursive'] += 1
-            continue
-        r = evaluate(G, start, terminals, L)
+
+    def record(G, start, r, canonical_failed=None):
         cases.append((f"{gr.grammar_str(G)} / start {start} / strings <= {L}", r['nontrivial']))
         hits.update(r['hits'])
         stats.update(r['stats'])
@@ -327,12 +396,30 @@ def work(task):
                 diag_kinds.add(kind)
                 diags.append(d)
         for clause, ksuf, text, w in r['fails']:
+            if canonical_failed is not None and (clause, ksuf) not in canonical_failed:
+                ksuf += ORDER_SUFFIX
+                text += (f" [the clause holds for the same productions declared in the order "
+                         f"{', '.join(canonical_failed[None])} (start symbol first)]")
             key = f"C02.{clause}:{ksuf}"
             case = make_case(G, start, terminals, L, w)
             size = len(repr(case))
             cur = fails.get(key)
             if cur is None or size < cur[3]:
                 fails[key] = (f"C02.{clause}", text, case, size)
+
+    for G, start in grammars_of(fam, part):
+        if gr.left_recursive(G):
+            stats['filtered:left-recursive'] += 1
+            continue
+        r = evaluate(G, start, terminals, L)
+        record(G, start, r)
+        G2 = redeclared(G, tier)
+        if G2 is not None:
+            # same productions, same start symbol, another declaration order of the dict: a case of its own
+            stats['evaluated-in-another-declaration-order'] += 1
+            canonical_failed = {(c, k): True for c, k, _, _ in r['fails']}
+            canonical_failed[None] = list(G)
+            record(G2, start, evaluate(G2, start, terminals, L), canonical_failed)
     return cases, fails, hits, diags, stats, errors
 
 
@@ -341,7 +428,7 @@ def tasks_for(tier):
     for fam in families(tier):
         n = 8 if fam[1] == 1 else 96
         for i in range(n):
-            out.append((fam, (i, n)))
+            out.append((fam, (i, n), tier))
     return out
 
 
@@ -372,10 +459,25 @@ def run(b):
                      'member-decided', 'non-member-decided', 'is_ambiguous re-asked after a rejected text',
                      'is_ambiguous re-asked after an accepted text', 'order:non-members-first',
                      'order:shortest-first'])
+    # declaration order of the productions dict: start symbol in every position (0..2 in the enumerated families,
+    # 0..4 in the nullable-tail family), and - not declared first - with an empty alternative that has to be taken
+    # at end of input (FOLLOW(start) = {end of input} must be attached to the start symbol, wherever it is declared)
+    b.require_reach([f'decl-order:start-symbol-declared-at-position-{i}' for i in range(5)]
+                    + ['decl-order:start-symbol-not-declared-first:ll1', 'decl-order:start-symbol-not-declared-first',
+                       'decl-order:start-symbol-declared-last', 'decl-order:start-symbol-declared-between-helpers',
+                       'decl-order:start-symbol-not-declared-first:empty-alternative-taken-at-end-of-input:ll1',
+                       'decl-order:start-symbol-not-declared-first:start-alternative-ends-in-nullable-symbol:ll1'])
+    if stats['evaluated-in-another-declaration-order'] == 0:
+        b.error("no grammar was evaluated in a non-canonical declaration order")
 
 
 def replay_case(case):
     G = gr.from_json(case['grammar'])
+    order = case.get('declaration_order')
+    if order is not None:       # the declaration order is part of the case (JSON objects need not keep it)
+        if sorted(order) != sorted(G):
+            raise RuntimeError('declaration_order does not list exactly the nonterminals of the grammar')
+        G = {x: G[x] for x in order}
     start, terminals, L = case['start'], case['terminals'], int(case.get('max_len', 4))
     if not gr.well_formed(G, start, terminals) or gr.left_recursive(G):
         return True, ['grammar is not well-formed or is left-recursive: outside the quantifier of C02']
@@ -383,4 +485,10 @@ def replay_case(case):
     if r['errors']:
         raise RuntimeError('; '.join(r['errors']))
     observed = [f"is_ll1 = {gr.is_ll1(G, start)}"] + [f"{c}: {t}" for c, _, t, _ in r['fails']][:12] + r['diags'][:6]
+    if r['fails'] and list(G)[0] != start:
+        # information only: the same productions with the start symbol declared first
+        G0 = {x: G[x] for x in [start] + [x for x in G if x != start]}
+        r0 = evaluate(G0, start, terminals, L)
+        observed.append(f"declared in the order {', '.join(G0)} (start symbol first) the same productions give "
+                        + (f"{len(r0['fails'])} failed clause instance(s)" if r0['fails'] else 'no failed clause'))
     return (not r['fails']), observed
